@@ -286,9 +286,9 @@ fn check(prop: &str, tier_arg: &str) -> i32 {
     let meta = checks::meta(prop);
     let known: Vec<String> = total.stats.keys().filter_map(|k| k.strip_prefix("known_finding::").map(|s| s.to_string())).collect();
     let fired: BTreeMap<&String, &u64> = total.stats.iter().filter(|(k, _)| k.starts_with("fault.") || k.starts_with("clock.") || k.starts_with("seed.")).collect();
-    let probes: BTreeMap<&String, &u64> = total.stats.iter().filter(|(k, _)| k.starts_with("probe.") || k.starts_with("corner.") || k.starts_with("budget.")).collect();
+    let probes: BTreeMap<&String, &u64> = total.stats.iter().filter(|(k, _)| k.starts_with("probe.") || k.starts_with("corner.") || k.starts_with("budget.") || k.starts_with("pair.")).collect();
     let outcomes: BTreeMap<&String, &u64> = total.stats.iter().filter(|(k, _)| k.starts_with("resp.") || k.starts_with("http.") || k.starts_with("cfg.")).collect();
-    let other: BTreeMap<&String, &u64> = total.stats.iter().filter(|(k, _)| !(k.starts_with("fault.") || k.starts_with("clock.") || k.starts_with("seed.") || k.starts_with("probe.") || k.starts_with("corner.") || k.starts_with("budget.") || k.starts_with("resp.") || k.starts_with("http.") || k.starts_with("cfg.") || k.starts_with("known_finding::"))).collect();
+    let other: BTreeMap<&String, &u64> = total.stats.iter().filter(|(k, _)| !(k.starts_with("fault.") || k.starts_with("clock.") || k.starts_with("seed.") || k.starts_with("probe.") || k.starts_with("corner.") || k.starts_with("budget.") || k.starts_with("pair.") || k.starts_with("resp.") || k.starts_with("http.") || k.starts_with("cfg.") || k.starts_with("known_finding::"))).collect();
     let mut samples = total.samples.clone();
     if samples.is_empty() {
         samples.push(serde_json::json!("no sample recorded"));
